@@ -201,6 +201,10 @@ pub fn underlying(sc: &Scenario) -> Scenario {
     for w in &mut u.walkers {
         w.layers = vec![Layer::Fe(vec![])];
     }
+    // the reference execution sees the world as it was built
+    u.mutations.clear();
+    u.triggers.clear();
+    u.schedule.retain(|s| !matches!(s, Step::M(_)));
     u
 }
 
